@@ -67,7 +67,7 @@ C["C04"] = dict(level="other",
  stubs=["zzMsgs", "funcs model", "zzBytesCodec", "hslam/log"],
  bounds={"requests": "quick 2, thorough 3", "args": "1 or 10 symbolic bytes", "modes": "pipelining x directIO x shared x bufsize{8,64}", "schedules": SCHED},
  outside=["handler bodies and reflection internals", "poll mode (C05 SRVp and stream harnesses only)", "Client.Call never retries: covered through the CLT harness's one-roundtrip-per-call label under C16"],
- runs={"quick": [run("SRV", params={"srv.kinds": 8}, labels=SRV_C04 + ["rejected-request-not-answered"]), run("TRretry")], "thorough": [run("SRV", params={"srv.N": 3, "srv.kinds": 8}, labels=SRV_C04 + ["rejected-request-not-answered"], budget=3000), run("TRretry"), run("TRretry", P=1, gran=1)]})
+ runs={"quick": [run("SRV", params={"srv.kinds": 8}, labels=SRV_C04 + ["rejected-request-not-answered"]), run("SRV", params={"srv.N": 3, "srv.kinds": 3, "srv.menu": 1}, labels=SRV_C04 + ["rejected-request-not-answered", "panic"]), run("TRretry")], "thorough": [run("SRV", params={"srv.N": 3, "srv.kinds": 8}, labels=SRV_C04 + ["rejected-request-not-answered"], budget=3000), run("TRretry"), run("TRretry", P=1, gran=1)]})
 
 C["C05"] = dict(level="other",
  explanation="Server: SRV harness with pipelining on and handlers that yield in the middle: executions never overlap, execution order and response order (pings excepted: they are not executed and may be answered by the decode worker) equal arrival order. Client: CLI harness with SetPipelining: calls issued by one goroutine on a shared Done channel must be signalled in issue order for every mix of success and server-reported error.",
@@ -137,8 +137,8 @@ C["C11"] = dict(level="other",
  stubs=["zzMsgs", "funcs model", "zzBytesCodec"],
  bounds={"message length": "1..3 (C11m), 1 or 10 (handler args)", "further traffic": "2 messages / 1-2 frames"},
  outside=["NoCopy modes (excluded by the property)", "user code calling FreeContextBuffer"],
- runs={"quick": [run("C11m"), run("SRV", labels=["handler-args-stable"]), run("SRV", params={"srv.kinds": 1, "srv.arglens": 4, "srv.bufsizes": 4}, labels=["handler-args-stable"]), run("STRc", labels=["messages-in-order-unmodified"]), run("STRs", params={"str.W": 2, "str.R": 2}, labels=["handler-messages-in-order-unmodified", "pushes-in-order-unmodified"]), run("CLI", labels=["reply-of-own-args"]), run("C19", labels=["own-reply", "reply-placed-in-context-buffer", "nothing-written-past-reply-length", "small-buffer-untouched"])],
-       "thorough": [run("C11m"), run("SRV", params={"srv.N": 3, "srv.kinds": 4}, labels=["handler-args-stable"], budget=1500), run("SRV", params={"srv.N": 3, "srv.kinds": 1, "srv.arglens": 4, "srv.bufsizes": 4}, labels=["handler-args-stable"], budget=1500), run("STRc", params={"str.N": 3}, labels=["messages-in-order-unmodified"]), run("STRs", params={"str.W": 2, "str.R": 3}, labels=["handler-messages-in-order-unmodified", "pushes-in-order-unmodified"]), run("CLI", params={"cli.K": 3}, labels=["reply-of-own-args"], budget=900), run("C19", labels=["own-reply", "reply-placed-in-context-buffer", "nothing-written-past-reply-length", "small-buffer-untouched"])]})
+ runs={"quick": [run("C11m"), run("SRV", labels=["handler-args-stable"]), run("SRV", params={"srv.N": 3, "srv.kinds": 1, "srv.exactfit": 1}, labels=["handler-args-stable"]), run("C11c"), run("STRc", labels=["messages-in-order-unmodified"]), run("STRs", params={"str.W": 2, "str.R": 2}, labels=["handler-messages-in-order-unmodified", "pushes-in-order-unmodified"]), run("CLI", labels=["reply-of-own-args"]), run("C19", labels=["own-reply", "reply-placed-in-context-buffer", "nothing-written-past-reply-length", "small-buffer-untouched"])],
+       "thorough": [run("C11m"), run("SRV", params={"srv.N": 3, "srv.kinds": 4}, labels=["handler-args-stable"], budget=1500), run("SRV", params={"srv.N": 3, "srv.kinds": 1, "srv.arglens": 4, "srv.bufsizes": 4}, labels=["handler-args-stable"], budget=1500), run("C11c", params={"c11c.N": 4}, budget=900), run("STRc", params={"str.N": 3}, labels=["messages-in-order-unmodified"]), run("STRs", params={"str.W": 2, "str.R": 3}, labels=["handler-messages-in-order-unmodified", "pushes-in-order-unmodified"]), run("CLI", params={"cli.K": 3}, labels=["reply-of-own-args"], budget=900), run("C19", labels=["own-reply", "reply-placed-in-context-buffer", "nothing-written-past-reply-length", "small-buffer-untouched"])]})
 
 C["C12"] = dict(level="other",
  explanation="Projection of C12 that symbolic execution can reach: (i) DialWithOptions and ListenWithOptions, run on the same Options value from a menu covering registered names, unregistered names with constructors, constructors only and both, build codecs with the same body-codec and header-encoder types and a registered name wins over a constructor on both ends; (ii) the server harness's oracle (replies, errors, executions) does not depend on the mode vector (pipelining x directIO x context buffer x buffer size smaller/larger than the message), so passing it in every mode is mode independence; buffer sizes in the header glue: C07.",
@@ -186,7 +186,7 @@ C["C16"] = dict(level="other",
  stubs=["zzRT (RoundTripper)", "clock", "timers fire at quiescent points"],
  bounds={"operations": "quick 2, thorough 3", "target menu": "6 lists over {a,b,c} incl. duplicates/empty", "ticks": "2"},
  outside=["concurrent Update and Call (sequential histories)", "longer histories"],
- runs={"quick": [run("CLT", params={"clt.S": 2}, labels=CLT_C16), run("CLT", params={"clt.S": 2, "clt.slowping": 1, "clt.ticks": 1}, labels=CLT_C16, budget=300), run("C18u", labels=["routed-to-current-target", "live-list-rebuilt-after-update"])], "thorough": [run("CLT", params={"clt.S": 3}, labels=CLT_C16, budget=1500), run("CLT", params={"clt.S": 3, "clt.slowping": 1, "clt.ticks": 1}, labels=CLT_C16, budget=2400), run("C18u", labels=["routed-to-current-target", "live-list-rebuilt-after-update"])]})
+ runs={"quick": [run("CLT", params={"clt.S": 2}, labels=CLT_C16), run("CLT", params={"clt.S": 2, "clt.slowping": 1, "clt.ticks": 1}, labels=CLT_C16, budget=300), run("C18u", labels=["routed-to-current-target", "live-list-rebuilt-after-update"]), run("C16p", labels=CLT_C16, budget=300)], "thorough": [run("C16p", params={"c16p.policies": 3}, labels=CLT_C16, budget=900), run("CLT", params={"clt.S": 3}, labels=CLT_C16, budget=1500), run("CLT", params={"clt.S": 3, "clt.slowping": 1, "clt.ticks": 1}, labels=CLT_C16, budget=2400), run("C18u", labels=["routed-to-current-target", "live-list-rebuilt-after-update"])]})
 
 C["C17"] = dict(level="other",
  explanation="Data-level symbolic execution of schedule/minHeap/heapDown/list/target.Update: round-robin from any cursor gives n distinct targets in n picks; Random picks list[i] for an arbitrary i in range; after minHeap the root is minimal and the heap is a permutation (arbitrary 64-bit latencies); LeastTime probes iff lastTime+Tick < now (symbolic clock and Tick), at most one probe per Tick, otherwise picks a minimal-latency target; target.Update follows the documented branch structure and its EWMA term equals the reference formula under IEEE-754 (differential query).",
